@@ -98,10 +98,11 @@ func vMinSack(opts []byte, isn uint32) (uint32, bool) {
 		if i+1 >= len(opts) {
 			break
 		}
-		l := V.Concretize(int(opts[i+1]))
-		if l < 2 || i+l > len(opts) {
+		// decide "malformed length" symbolically first, so that only the few lengths that fit are enumerated
+		if opts[i+1] < 2 || int(opts[i+1]) > len(opts)-i {
 			break
 		}
+		l := V.Concretize(int(opts[i+1]))
 		if kind == 5 {
 			for j := i + 2; j+8 <= i+l; j += 8 {
 				rel := N.BE32(opts[j:j+4]) - isn
@@ -114,6 +115,30 @@ func vMinSack(opts []byte, isn uint32) (uint32, bool) {
 		i += l
 	}
 	return min, found
+}
+
+// vOptsOK: the option area is well formed in the sense every TCP stack (and the decoder) requires: each option other
+// than EOL/NOP has a length byte, the length is >= 2 and fits the remaining area. A segment that fails this is
+// malformed traffic (rejected as a bad packet), not an acknowledgement "without SACK blocks".
+func vOptsOK(opts []byte) bool {
+	for i := 0; i < len(opts); {
+		kind := opts[i]
+		if kind == 0 {
+			return true
+		}
+		if kind == 1 {
+			i++
+			continue
+		}
+		if i+1 >= len(opts) {
+			return false
+		}
+		if opts[i+1] < 2 || int(opts[i+1]) > len(opts)-i {
+			return false
+		}
+		i += V.Concretize(int(opts[i+1]))
+	}
+	return true
 }
 
 // vOnTuple: TCP segment from target:port to local:localPort.
